@@ -29,6 +29,8 @@ def main(argv=None):
         from .srcmodel import load_repo
         repo = load_repo()
         mod.run(chk, repo, args.tier)
+        from . import generic
+        generic.run(chk, repo, pid)
         if args.tier == 'thorough' and not os.environ.get('VERIF_SELFTEST'):
             from selftest.harness import mutants_for, run_all
             from .report import AnalysisError
